@@ -32,10 +32,10 @@ import translate  # noqa: E402
 PROPERTY_FILES = {
     "C01": ["C01", "SrcLin", "FullLin", "FullApi", "EndToEnd"], "C02": ["C02", "SrcHll", "FullHll", "FullApi", "EndToEnd"], "C03": ["C03", "SrcHH", "FullHH", "SrcHHQ", "FullApi", "EndToEnd"], "C04": ["C04", "SrcHH", "FullHH", "EndToEnd"],
     "C05": ["C05", "C05Log", "SrcLin", "FullLin", "FullLog", "FullApi"],
-    "C06": ["C06", "C06Unbias", "C09Link", "SrcRand", "FullLog", "FullApi", "EndToEndLog"], "C07": ["C07", "FullEst"], "C08": ["C08", "C08Compose", "SrcPar"], "C09": ["C09", "C09Link", "SrcLin", "FullLin", "FullLog", "FullApi", "EndToEndLog"],
+    "C06": ["C06", "C06Unbias", "C09Link", "SrcRand", "FullLog", "FullApi", "EndToEndLog"], "C07": ["C07", "FullEst"], "C08": ["C08", "C08Compose", "SrcPar"], "C09": ["C09", "C09Link", "SrcLin", "FullLin", "FullLog", "FullApi", "EndToEndLog", "SrcFloat"],
     "C10": ["C10", "SrcSchema"],
     "C11": ["C11", "FullHash"], "C12": ["C12", "FullLin", "FullLog", "FullHll", "FullHH", "FullApi"], "C13": ["C13", "SrcHH", "FullHH", "SrcHHQ"], "C14": ["C14"], "C15": ["C15"], "C16": ["C16", "SrcSchema"],
-    "C17": ["C17", "FullEst"], "C18": ["C18", "C09Link", "SrcLin", "FullLin"], "C19": ["C19", "SrcPar"], "C20": ["C20", "SrcSchema"],
+    "C17": ["C17", "FullEst"], "C18": ["C18", "C09Link", "SrcLin", "FullLin", "SrcFloat"], "C19": ["C19", "SrcPar"], "C20": ["C20", "SrcSchema"],
 }
 
 
@@ -395,7 +395,8 @@ def write_evidence(res, lean, level, extra_cov=None, assumptions=None, violation
             "hand-written model tied to /repo by differential correspondence (this harness, the driver's parsing/re-tabulation glue)",
             "translators harness/translate.py (constants, HLL tables, merge guards), kernels.py (decision-logic cores, HH query logic, merge rounds, worker skeleton), "
             "kernels2.py (whole Numba kernels; integer casts dropped, arrays as total functions), methods.py (class methods, batch entry points), schema.py (save/load schema, "
-            "constructor validation, shared-memory layouts)",
+            "constructor validation, shared-memory layouts), hashtr.py (hashes.py over machine words), floattr.py (float code of _counter2value and of the log merge cell body; "
+            "Numba's cast/promotion rules as listed in the file)",
             "Numba, NumPy, CPython, libm, OS are modelled, not verified",
         ],
         "theorems": {n: t["axioms"] for n, t in (lean.theorems.items() if lean else [])},
